@@ -143,8 +143,8 @@ theorem np_writeKey (a k v : Bytes) (c : Ctx) : NP (writeKey a k v) c := by
   apply NP.of_ne; intro h; cases h
 macro_rules | `(tactic| np_spec) => `(tactic| exact np_writeKey _ _ _ _)
 
-theorem np_marshalToken (t : Token) (c : Ctx) : NP (marshalToken t) c := by unfold marshalToken; np
-theorem np_marshalRoles (r : List Bytes) (c : Ctx) : NP (marshalRoles r) c := by unfold marshalRoles; np
+theorem np_marshalToken (t : Token) (c : Ctx) : NP (marshalToken t) c := by unfold marshalToken; np; split <;> np
+theorem np_marshalRoles (r : List Bytes) (c : Ctx) : NP (marshalRoles r) c := by unfold marshalRoles; np; split <;> np
 theorem np_unmarshalToken (b : Bytes) (c : Ctx) : NP (unmarshalToken b) c := by
   unfold unmarshalToken; np; split <;> np
 theorem np_unmarshalRoles (b : Bytes) (c : Ctx) : NP (unmarshalRoles b) c := by
